@@ -18,6 +18,7 @@ import Golib.Layout.Reencode
 import Golib.Layout.ValueInst
 import Golib.Layout.Prefix
 import Golib.Layout.History
+import Golib.Layout.HeaderProg
 import Golib.Packs.Profile
 import Golib.Packs.Caps
 import Golib.Packs.Container
@@ -52,6 +53,57 @@ theorem header_long (h : Hdr) (hk : ¬ (h.okind = 0 ∧ h.onode = 0)) :
     · right; intro b; exact hk ⟨a, b⟩
     · left; exact a
   simp [encHeader, this]
+
+/-! ### the header's public accessors (Pack interface) and a header received by a USED object -/
+
+/-- **populated through the public setters, observed through the public getters**: whatever the object
+    held, after `SetPCODE p; SetOID o; SetOKIND k; SetONODE n; SetTime t` a write/read trip delivers exactly
+    those five values (either header form), and `GetPCODE` / `GetTime` of the decoded header return `p` / `t` -/
+theorem header_setters_roundtrip (h : Hdr) (p o k n t : Int) (r : Bytes) (wf : (⟨p, o, k, n, t⟩ : Hdr).WF) :
+    let h' := ((((h.setPCODE p).setOID o).setOKIND k).setONODE n).setTime t
+    P.run decHeader (encHeader h' ++ r) = some (⟨p, o, k, n, t⟩, r) ∧ h'.getPCODE = p ∧ h'.getTime = t :=
+  ⟨Layout.header_roundtrip ⟨p, o, k, n, t⟩ r wf, rfl, rfl⟩
+
+/-- each setter changes its own field only (frame condition) -/
+theorem header_setter_frame (h : Hdr) (v : Int) :
+    (h.setOID v) = { h with oid := v } ∧ (h.setPCODE v) = { h with pcode := v } ∧
+    (h.setOKIND v) = { h with okind := v } ∧ (h.setONODE v) = { h with onode := v } ∧
+    (h.setTime v) = { h with time := v } := ⟨rfl, rfl, rfl, rfl, rfl⟩
+
+/-- **a header decoded INTO AN OBJECT THAT ALREADY HOLDS `h0`** (re-use of a pack object, `p.Read(in)` twice):
+    the long form replaces all five fields; the short form (Okind = Onode = 0 on the writer's side) assigns
+    Pcode, Oid and Time and leaves the object's Okind / Onode as they were — so the decoded header equals
+    the one written iff the form was long or the object held zeros there (`header_into_used_eq`).  This is
+    the behaviour of the code (`AbstractPack.Read` returns early); `C03Gen.header_reader_interpreted` ties
+    `decHeaderInto` to the transcribed statements for every `h0`. -/
+theorem header_into_used (h0 h : Hdr) (r : Bytes) (wf : h.WF) :
+    P.run (decHeaderInto h0) (encHeader h ++ r) = some (h0.into h, r) := Layout.header_into_used h0 h r wf
+
+theorem header_into_used_eq (h0 h : Hdr) :
+    h0.into h = h ↔ (h.short = false ∨ (h0.okind = 0 ∧ h0.onode = 0)) := by
+  obtain ⟨pc, oid, okind, onode, t⟩ := h
+  unfold Hdr.into
+  cases hs : Hdr.short ⟨pc, oid, okind, onode, t⟩
+  · simp
+  · simp only [Hdr.short, Bool.and_eq_true, beq_iff_eq] at hs
+    obtain ⟨a, b⟩ := hs
+    subst a; subst b
+    constructor
+    · intro e
+      have e1 := congrArg Hdr.okind e
+      have e2 := congrArg Hdr.onode e
+      simp at e1 e2
+      exact Or.inr ⟨e1, e2⟩
+    · rintro (e | ⟨e1, e2⟩)
+      · cases e
+      · simp [e1, e2]
+
+/-- a fresh object (Okind = Onode = 0, what the factory creates) receives exactly the header written -/
+theorem header_into_fresh (h : Hdr) : hdr0.into h = h := Layout.into_fresh h
+
+example : (⟨1, 2, 7, 8, 3⟩ : Hdr).into ⟨5, 6, 0, 0, 9⟩ = ⟨5, 6, 7, 8, 9⟩ := by decide
+example : P.run (decHeaderInto ⟨1, 2, 7, 8, 3⟩) (encHeader ⟨5, 6, 0, 0, 9⟩) = some (⟨5, 6, 7, 8, 9⟩, []) := by
+  decide +kernel
 
 /-! ### every primitive of the layouts -/
 
@@ -134,6 +186,24 @@ theorem history_last (y : Rec) (os : List Out) (o : Out) (hn : (keys o).Nodup) (
 theorem tagged_roundtrip (fac : Factory) (p : PV) (rest : Bytes) (h : p.ok valueRT fac) :
     readPack fac (writePack p ++ rest) = some (p.carried, rest) := readPack_writePack valueRT fac p rest h
 
+/-- **`ToBytesPackECB`** (the encoding padded with zero bytes to a multiple of the block length `n`, for block
+    ciphers): `ToPack` of the padded bytes is still the pack written — the type tag selects the reader, the
+    reader consumes exactly the encoding and leaves exactly the padding … -/
+theorem ecb_tagged_roundtrip (fac : Factory) (p : PV) (n : Nat) (h : p.ok valueRT fac) :
+    readPack fac (ecbPad n (writePack p)) = some (p.carried, ecbTail n (writePack p)) := by
+  rw [ecbPad_eq]; exact readPack_writePack valueRT fac p _ h
+
+/-- … the padded length is a multiple of the block length, the padding is all zero, and an encoding that
+    already fills its last block is not padded -/
+theorem ecb_block_multiple (n : Nat) (hn : 0 < n) (bs : Bytes) : (ecbPad n bs).length % n = 0 :=
+  ecbPad_length n hn bs
+theorem ecb_padding_zero (n : Nat) (bs : Bytes) : ∀ b ∈ ecbTail n bs, b = 0 := ecbTail_zero n bs
+theorem ecb_no_padding (n : Nat) (bs : Bytes) (h : bs.length % n = 0) : ecbPad n bs = bs := by
+  simp [ecbPad, h]
+
+example : ecbPad 8 [1, 2, 3, 4, 5, 6, 7, 8, 9, 10] = [1, 2, 3, 4, 5, 6, 7, 8, 9, 10, 0, 0, 0, 0, 0, 0] := by decide
+example : ecbPad 5 [1, 2, 3, 4, 5] = [1, 2, 3, 4, 5] := by decide
+
 /-- a type code the factory does not know does not decode (CreatePack returns nil) -/
 theorem unknown_code_fails (fac : Factory) (code : Int) (body : Bytes) (hc : inRange 2 code)
     (h : fac code = none) : readPack fac (encI 2 code ++ body) = none := by
@@ -182,6 +252,22 @@ theorem records_roundtrip (bw br : L) (h : agrees (recordsW bw) (recordsW br) = 
     ∃ e', (recordsW br).read "" e ((recordsW bw).write e "" x ++ rest)
       = some ((recordsW bw).expect e "" x, e', rest) :=
   Packs.records_roundtrip valueRT bw br h e x rest hwf
+
+/-! ### LogSinkPack's content codec: `SetContentBytes (GetContentBytes ())` -/
+
+/-- the second write/read pair LogSinkPack offers (version byte 1, Content, Line): reading what
+    `GetContentBytes` produced assigns exactly Content and Line, whatever follows -/
+theorem logsink_content_roundtrip (E : Env) (x : Rec) (rest : Bytes)
+    (hwf : Hand.LogSinkContent.w.WF valueRT E "" x) :
+    ∃ E', Hand.LogSinkContent.r.read "" E (Hand.LogSinkContent.w.write E "" x ++ rest)
+      = some (Hand.LogSinkContent.w.expect E "" x, E', rest) :=
+  pack_roundtrip _ _ (by decide) E "" x rest hwf
+
+/-- … and no strict prefix of those bytes is accepted -/
+theorem logsink_content_prefix_fails (E : Env) (x : Rec) (hwf : Hand.LogSinkContent.w.WF valueRT E "" x)
+    (q s : Bytes) (hs : s ≠ []) (hq : q ++ s = Hand.LogSinkContent.w.write E "" x) :
+    Hand.LogSinkContent.r.read "" E q = none :=
+  pack_prefix_fails _ _ (by decide) (by decide) E "" x hwf q s hs hq
 
 /-! ### bounded tables inside packs (StatRemoteIpPack.IpTable ≤ 10000, StatUserAgentPack.UserAgents ≤ 500) -/
 
@@ -326,6 +412,23 @@ example : ∃ E', demoR.read "" env0 (demoL.write env0 "" demoX ++ [42]) = some 
   pack_roundtrip demoL demoR (by decide) env0 "" demoX [42] demo_wf
 example (q s : Bytes) (hs : s ≠ []) (hq : q ++ s = demoL.write env0 "" demoX) : demoR.read "" env0 q = none :=
   pack_prefix_fails demoL demoR (by decide) (by decide) env0 "" demoX demo_wf q s hs hq
+
+/-- a LogSinkPack content (`Content = "hi"`, `Line = -7`) meets the hypothesis of `logsink_content_roundtrip` -/
+def contentX : Rec := fun k => if k = "Content" then .bytes [104, 105] else if k = "Line" then .int (-7) else .int 0
+theorem contentX_wf : Hand.LogSinkContent.w.WF valueRT env0 "" contentX := by
+  have e1 : contentX ("" ++ "Content") = .bytes [104, 105] := by rfl
+  have e2 : contentX ("" ++ "Line") = .int (-7) := by rfl
+  simp only [Hand.LogSinkContent.w, L.WF, e1, e2]
+  refine ⟨?_, ?_, ?_, ?_, ?_, trivial⟩
+  · simp [Layout.Prim.wf]
+  · simp [Layout.Prim.wf]
+  · simp [rngOk]
+  · simp [Layout.Prim.wf, inRange, modulus]
+  · simp [rngOk, Rng.ok, inRange, modulus]
+example : Hand.LogSinkContent.w.write env0 "" contentX = [1, 2, 104, 105, 1, 249] := by decide +kernel
+example : ∃ E', Hand.LogSinkContent.r.read "" env0 (Hand.LogSinkContent.w.write env0 "" contentX ++ [42])
+    = some (Hand.LogSinkContent.w.expect env0 "" contentX, E', [42]) :=
+  logsink_content_roundtrip env0 contentX [42] contentX_wf
 
 example : (⟨300, 1, 7, 0, 99⟩ : Hdr).WF := by decide
 example : encHeader ⟨0, 1, 0, 0, 2⟩ = [0, 0, 0, 0, 1, 0, 0, 0, 0, 0, 0, 0, 2] := by decide
